@@ -49,6 +49,8 @@ StepOK ==
   /\ MonExecAuth(st, last', ok', st')
   /\ MonSoftFail(st, st', same, same)
   /\ MonExecOutcome(st, last', ok', st')
+  /\ MonExecOnce(st, last', ok')
+  /\ MonTerminalKept(st, st')
   /\ MonHardFail(ok', st, st', ~ok' => st' = st)
 StepProps == [][StepOK]_vars
 
